@@ -693,6 +693,43 @@ pub fn c03_images(ctx: &Ctx, out: &mut RunOut) -> Result<(), Violation> {
             h = simcore::mix(h, simcore::fnv(&img));
         }
     }
+    // 7. content-changing operations on streams whose Length is an indirect object, then a save: the file
+    //    must say what the document in memory says (the model is re-read from the document after the operations)
+    if ctx.chance(W, 1, 3, "c03-indirect-length-ops") {
+        let mut d7 = sim::to_doc(&m);
+        let streams: Vec<(u32, u16)> = d7.objects.iter().filter(|(_, o)| o.as_stream().is_ok()).map(|(i, _)| *i).collect();
+        let body: Vec<u8> = b"BT /F1 12 Tf (the same line again and again) Tj ET\n".iter().cycle().take(600).cloned().collect();
+        let target = if streams.is_empty() || ctx.chance(W, 1, 3, "c03-new-stream") {
+            d7.add_object(lopdf::Stream::new(lopdf::Dictionary::new(), body.clone()))
+        } else {
+            streams[ctx.draw(W, streams.len() as u64, "c03-stream") as usize]
+        };
+        let len_now = d7.get_object(target).and_then(|o| o.as_stream()).map(|st| st.content.len() as i64).unwrap_or(0);
+        let len_id = d7.add_object(lopdf::Object::Integer(len_now));
+        if let Ok(st) = d7.get_object_mut(target).and_then(|o| o.as_stream_mut()) {
+            st.dict.set("Length", lopdf::Object::Reference(len_id));
+        }
+        for _ in 0..1 + ctx.draw(W, 3, "c03-ops") {
+            match ctx.draw(W, 3, "c03-op") {
+                0 => d7.compress(),
+                1 => d7.decompress(),
+                _ => {
+                    if let Ok(st) = d7.get_object_mut(target).and_then(|o| o.as_stream_mut()) {
+                        let n = 1 + ctx.draw(W, 900, "c03-new-len") as usize;
+                        st.set_content(body.iter().cycle().take(n).cloned().collect());
+                    }
+                }
+            }
+        }
+        let mut m7 = sim::from_doc(&d7);
+        m7.version = m.version.clone();
+        m7.binary_mark = m.binary_mark.clone();
+        m7.xref_stream = m.xref_stream;
+        ctx.count("image-after-content-ops-with-indirect-length");
+        let img = save(&mut d7, "save after content-changing operations")?;
+        crate::c03::check_image(ctx, &img, &m7, None)?;
+        h = simcore::mix(h, simcore::fnv(&img));
+    }
     out.case_hash = h;
     out.nontrivial = !m.objects.is_empty();
     out.sample = format!("{} objects, xref {}, {} incremental appends, final image {} bytes", m.objects.len(), if m.xref_stream { "stream" } else { "table" }, n_inc, prev.len());
